@@ -454,6 +454,18 @@ Section INV.
       eapply Inv_pop; eauto. intros ->. simpl in L1. pose proof (Inv_nonempty e HI). destruct e; simpl in *; [contradiction|lia].
   Qed.
 
+  Lemma do_idx_set_inv : forall e n k w, Inv e ->
+    Inv (fst (do_idx_set c e n k w)) /\ length (fst (do_idx_set c e n k w)) = length e.
+  Proof.
+    intros e n k w HI. unfold do_idx_set.
+    destruct (read_name_inv e n HI) as (H1 & L1 & _).
+    destruct (read_name e n) as [e1 r1]. simpl in *.
+    destruct r1 as [xv| | |]; auto.
+    destruct (x_idx_set xv k w) as [nv| | |]; auto.
+    destruct (set_container_inv e1 n xv nv H1) as (H2 & L2).
+    destruct (set_container c e1 n xv nv) as [e2 r2]. simpl in *. split; auto. lia.
+  Qed.
+
   Lemma do_attempt_inv : forall a e, attempt_deletes a = false -> Inv e ->
     Inv (fst (do_attempt c e a)) /\ length (fst (do_attempt c e a)) = length e.
   Proof.
@@ -472,12 +484,7 @@ Section INV.
         destruct (create_or_set_inv e1 n w false H1) as (H2 & L2 & _);
         destruct (create_or_set c e1 n w false) as [e2 r2]; simpl in *; split; auto; lia end.
     - (* n[i] = v *)
-      destruct (read_name_inv e n HI) as (H1 & L1 & _).
-      destruct (read_name e n) as [e1 r1]. simpl in *.
-      destruct r1 as [xv| | |]; auto.
-      destruct (x_idx_set xv k v0) as [nv| | |]; auto.
-      destruct (set_container_inv e1 n xv nv H1) as (H2 & L2).
-      destruct (set_container c e1 n xv nv) as [e2 r2]. simpl in *. split; auto. lia.
+      apply do_idx_set_inv; auto.
     - (* del(n[k]) *)
       pose proof (env_get_inv e n HI) as HG.
       destruct (env_get e n) as [[e1 o]|]; auto.
@@ -505,6 +512,27 @@ Section INV.
       destruct r1; try (apply Hpop; auto).
       destruct (read_name_inv e1 n H1) as (H2 & L2 & _).
       destruct (read_name e1 n) as [e2 r2]. simpl in *. apply Hpop; auto. lia.
+    - (* func(n){y[k]=v;n}(y) *)
+      destruct (read_name_inv e y HI) as (H0 & L0 & _).
+      destruct (read_name e y) as [e0 [w| | |]]; simpl in *; auto.
+      assert (Hpop : forall e2, Inv e2 -> length e2 = S (length e) -> Inv (tl e2) /\ length (tl e2) = length e).
+      { intros e2 HI2 HL2. destruct e2 as [|f t]; simpl in *; [lia|]. split; [|lia].
+        eapply Inv_pop; eauto. intros ->. simpl in HL2. pose proof (Inv_nonempty e HI). destruct e; simpl in *; [contradiction|lia]. }
+      set (bound := if is_int w && reg_bound c n then (empty_frame :: e0, Ok w)
+                    else create_or_set c (empty_frame :: e0) n w true).
+      assert (HB : Inv (fst bound) /\ length (fst bound) = S (length e)).
+      { unfold bound. destruct (is_int w && reg_bound c n); simpl.
+        - split; [apply Inv_push; auto|lia].
+        - destruct (create_or_set_inv (empty_frame :: e0) n w true (Inv_push e0 H0)) as (H1 & L1 & _).
+          split; auto. etransitivity; [exact L1|simpl; lia]. }
+      destruct bound as [e1 r1]. simpl in HB. destruct HB as [H1 L1].
+      destruct r1; try (apply Hpop; auto).
+      destruct (do_idx_set_inv e1 y k v0 H1) as (H2 & L2).
+      destruct (do_idx_set c e1 y k v0) as [e2 r2]. simpl in *.
+      destruct r2; try (apply Hpop; auto; lia).
+      destruct (is_int w && reg_bound c n); [apply Hpop; auto; lia|].
+      destruct (read_name_inv e2 n H2) as (H3 & L3 & _).
+      destruct (read_name e2 n) as [e3 r3]. simpl in *. apply Hpop; auto. lia.
     - (* n *)
       destruct (read_name_inv e n HI) as (H1 & L1 & _). auto.
   Qed.
